@@ -12,6 +12,8 @@ import (
 	"context"
 	"fmt"
 	"io"
+	"strings"
+	"time"
 
 	"github.com/c2FmZQ/ech"
 	vs "github.com/c2FmZQ/ech/vsched"
@@ -21,6 +23,7 @@ import (
 	"verif/internal/ev"
 	"verif/internal/hpkeref"
 	"verif/internal/tlsref"
+	"verif/internal/workers"
 )
 
 type interScenario struct {
@@ -287,51 +290,93 @@ func interReplayChooser(vec []int) vs.Chooser {
 	}
 }
 
-// RunInter is the sub-run "C06I" of the C06 check (instrumented binary).
-func RunInter(r *ev.Run) {
-	bound := 3
-	if r.Thorough() {
-		bound = 6
+func interBound(tier string) (bound, maxExecs int) {
+	if tier == "thorough" {
+		return 8, 3000000
 	}
-	r.Rule(fmt.Sprintf("E3: the real, instrumented Conn pumped by two threads (client->backend Read loop, backend->client Write script) plus a client thread that sends its next flight as soon as the previous answer reaches it; scenarios = second hello {valid, inner SNI changed, without ECH, none (ServerHello)} x client CCS before it {no,yes} x HRR and CCS in one Write {no,yes} x second hello in one/two segments x reader already blocked in Read when the answer is written {yes,no}; ALL schedules with at most %d deviations; the bytes each side receives, the error class and the alert must equal those of the sequential history. distinct = distinct scenarios", bound))
-	r.Assume("Conn.Read and Conn.Write are each called from one goroutine (one per direction), as a proxy does", "scheduling points: transport Read/Write (before and after delivery), channel and lock operations of the rewritten sources")
+	return 3, 100000
+}
+
+// InterWorker explores scenarios idx = shard, shard+n, ... (one scheduler per process).
+func InterWorker(tier string, shard, n int) {
+	bound, maxExecs := interBound(tier)
 	w := buildInterWorld()
-	execs, points := 0, 0
-	for _, sc := range interScenarios() {
-		sc := sc
-		outcomes := map[string]int{}
-		var vkey, vwhat string
-		var vvec []int
-		e := &vs.Explorer{Bound: bound, MaxExecs: 300000}
-		e.Body = func(x *vs.Execution, choose vs.Chooser) {
-			ob, s := runInter(w, sc, choose, false)
-			k, wh := interMonitor(w, sc, ob, s)
-			outcomes[fmt.Sprintf("backend=%dB client=%dB err=%s", len(ob.toBackend), len(ob.out), echx.ErrClass(ob.readErr))]++
-			if k != "" && vkey == "" {
-				vec := x.Vector()
-				ob2, s2 := runInter(w, sc, interReplayChooser(vec), false)
-				if k2, _ := interMonitor(w, sc, ob2, s2); k2 != k {
-					vkey, vwhat = "nondeterministic-replay", fmt.Sprintf("schedule %v gave %q then %q", vec, k, k2)
-				} else {
-					vkey, vwhat = k, wh
+	scs := interScenarios()
+	workers.Serve(shard, n, len(scs), 1800*time.Second,
+		func(idx int) any { return map[string]any{"family": "interleaving", "scenario": scs[idx]} },
+		func(idx int) workers.Result {
+			sc := scs[idx]
+			outcomes := map[string]int{}
+			var vkey, vwhat string
+			var vvec []int
+			e := &vs.Explorer{Bound: bound, MaxExecs: maxExecs}
+			e.Body = func(x *vs.Execution, choose vs.Chooser) {
+				ob, s := runInter(w, sc, choose, false)
+				k, wh := interMonitor(w, sc, ob, s)
+				outcomes[fmt.Sprintf("backend=%dB client=%dB err=%s", len(ob.toBackend), len(ob.out), echx.ErrClass(ob.readErr))]++
+				if k != "" && vkey == "" {
+					vec := x.Vector()
+					ob2, s2 := runInter(w, sc, interReplayChooser(vec), false)
+					if k2, _ := interMonitor(w, sc, ob2, s2); k2 != k {
+						vkey, vwhat = "nondeterministic-replay", fmt.Sprintf("schedule %v gave %q then %q", vec, k, k2)
+					} else {
+						vkey, vwhat = k, wh
+					}
+					vvec = vec
 				}
-				vvec = vec
+			}
+			e.Explore()
+			res := workers.Result{Outcome: fmt.Sprintf("interleavings second-hello=%s distinct-outcomes=%d", sc.CH2, len(outcomes))}
+			if e.Capped {
+				res.Outcome += " CAPPED"
+			}
+			res.Outcome += fmt.Sprintf("|execs=%d|points=%d", e.Executions, e.ChoicePoints)
+			if e.Diverged != "" {
+				res.Viol, res.What = "tool:replay-diverged", e.Diverged
+			}
+			if vkey != "" {
+				res.Viol, res.What, res.Replay = "interleaving:"+vkey, vwhat, interReplay{sc, vvec}
+			}
+			if idx%7 == shard%7 {
+				res.Sample = map[string]any{"scenario": sc, "executions": e.Executions, "outcomes": outcomes}
+			}
+			return res
+		})
+}
+
+// RunInter is the sub-run "C06I" of the C06 check (instrumented binary): parent of the workers.
+func RunInter(r *ev.Run) {
+	bound, maxExecs := interBound(r.Tier)
+	r.Rule(fmt.Sprintf("E3: the real, instrumented Conn pumped by two threads (client->backend Read loop, backend->client Write script) plus a client thread that sends its next flight as soon as the previous answer reaches it; scenarios = second hello {valid, inner SNI changed, without ECH, none (ServerHello)} x client CCS before it {no,yes} x HRR and CCS in one Write {no,yes} x second hello in one/two segments x reader already blocked in Read when the answer is written {yes,no}; ALL schedules with at most %d deviations (cap %d executions per scenario, reported when hit); the bytes each side receives, the error class and the alert must equal those of the sequential history. distinct = distinct scenarios", bound, maxExecs))
+	r.Assume("Conn.Read and Conn.Write are each called from one goroutine (one per direction), as a proxy does", "scheduling points: transport Read/Write (before and after delivery), channel and lock operations of the rewritten sources")
+	for _, sc := range interScenarios() {
+		r.Eval(fmt.Sprintf("%+v", sc), "")
+	}
+	done, total := workers.Spawn(r, "C06I", 4*1024*1024)
+	if done != total {
+		r.Cap(fmt.Sprintf("workers explored %d of %d interleaving scenarios", done, total))
+	}
+	execs, points := int64(0), int64(0)
+	capped := false
+	r.FoldOutcomes(func(label string, n int64) (string, map[string]int64) {
+		parts := strings.Split(label, "|")
+		for _, p := range parts[1:] {
+			var v int64
+			if _, err := fmt.Sscanf(p, "execs=%d", &v); err == nil {
+				execs += v * n
+			} else if _, err := fmt.Sscanf(p, "points=%d", &v); err == nil {
+				points += v * n
 			}
 		}
-		e.Explore()
-		execs += e.Executions
-		points += e.ChoicePoints
-		if e.Diverged != "" {
-			ev.ToolError("replay diverged: %s", e.Diverged)
+		if strings.Contains(parts[0], "CAPPED") {
+			capped = true
 		}
-		if e.Capped {
-			r.Cap(fmt.Sprintf("scenario %+v: execution cap hit", sc))
-		}
-		if vkey != "" {
-			r.Violation("interleaving:"+vkey, vwhat, interReplay{sc, vvec})
-		}
-		r.Eval(fmt.Sprintf("%+v", sc), fmt.Sprintf("interleavings second-hello=%s distinct-outcomes=%d", sc.CH2, len(outcomes)))
+		return parts[0], map[string]int64{}
+	})
+	if capped {
+		r.Cap("execution cap hit in at least one scenario (the bound was not completed there)")
 	}
-	r.Add("executions", int64(execs))
-	r.Add("choice_points", int64(points))
+	r.Set("executions", execs)
+	r.Set("choice_points", points)
+	r.Set("deviation_bound", bound)
 }
